@@ -7,6 +7,7 @@ SPEC = {
          "quick": {"checks": 500, "shards": 4, "timeout": 300},
          "thorough": {"checks": 1500, "shards": 16, "timeout": 3000}},
         {"name": "free", "pkg": O4, "kind": "rapid", "run": "^TestVerifC01FreeRunning$",
+         "common": {"shrinktime": "1s"},
          "quick": {"checks": 40, "shards": 2, "timeout": 300},
          "thorough": {"checks": 400, "shards": 8, "timeout": 1500, "race": True}},
     ],
